@@ -73,3 +73,59 @@ Definition followsb (es : list edge) (st : state) : bool :=
                      | Some l => forallb (fun h : lock => existsb (fun e : edge => String.eqb (fst e) (fst h) && String.eqb (snd e) (fst l)) es) (held th)
                      | None => true
                      end) st.
+
+(** ---- executions: threads acquire and release locks one operation at a time. A thread may request a
+    lock only if the relation allows it under everything it holds; it gets it when nobody holds it and
+    waits otherwise (and may retry while waiting); only a thread that is not waiting releases. *)
+Inductive lop := OAcq (t : nat) (l : lock) | ORel (t : nat) (l : lock).
+
+Definition edge_in (es : list edge) (a b : string) : bool :=
+  existsb (fun e : edge => String.eqb (fst e) a && String.eqb (snd e) b) es.
+
+Definition allowed (es : list edge) (th : thread) (l : lock) : bool :=
+  forallb (fun h : lock => edge_in es (fst h) (fst l)) (held th).
+
+Definition is_free (st : state) (l : lock) : bool := forallb (fun th => negb (holdsb th l)) st.
+
+Fixpoint set_thread (st : state) (t : nat) (th : thread) : state :=
+  match st, t with
+  | [], _ => []
+  | _ :: r, O => th :: r
+  | x :: r, S t' => x :: set_thread r t' th
+  end.
+
+Fixpoint remove_lock (l : lock) (ls : list lock) : list lock :=
+  match ls with
+  | [] => []
+  | x :: r => if lock_eqb l x then r else x :: remove_lock l r
+  end.
+
+Definition lstep (es : list edge) (st : state) (op : lop) : option state :=
+  match op with
+  | OAcq t l =>
+    match nth_error st t with
+    | Some th =>
+      if allowed es th l && (match want th with None => true | Some l' => lock_eqb l l' end) then
+        if is_free st l then Some (set_thread st t {| held := l :: held th; want := None |})
+        else Some (set_thread st t {| held := held th; want := Some l |})
+      else None
+    | None => None
+    end
+  | ORel t l =>
+    match nth_error st t with
+    | Some th =>
+      match want th with
+      | None => if holdsb th l then Some (set_thread st t {| held := remove_lock l (held th); want := None |}) else None
+      | Some _ => None
+      end
+    | None => None
+    end
+  end.
+
+Fixpoint lrun (es : list edge) (st : state) (ops : list lop) : option state :=
+  match ops with
+  | [] => Some st
+  | op :: r => match lstep es st op with Some st' => lrun es st' r | None => None end
+  end.
+
+Definition idle_threads (n : nat) : state := repeat {| held := []; want := None |} n.
